@@ -70,6 +70,14 @@ def stepOp : List String → Option String
     match display hash with
     | .ok d => pure (asciiStr d)
     | _ => pure "PANIC"
+  | ["fromhexbig", n, s] => do
+    -- an input of n bytes whose first bytes are s (the rest zero): only its length matters unless n = 64
+    -- (`from_hex_error_kind`: every length other than 64 is InvalidLen of that length)
+    let n ← n.toNat?
+    let inp ← unhexTok s
+    if inp.length > n ∨ n > 2 ^ 34 then none
+    if n = 64 then pure (fromHexOut (fromHex (inp ++ List.replicate (64 - inp.length) 0)))
+    else pure (hexErrStr (.invalidLen n))
   | ["fromhex", s] => do
     let inp ← unhexTok s
     pure (fromHexOut (fromHex inp))
